@@ -121,7 +121,10 @@ impl MaybeDynSized for RelocatableHeaderTag {
 
     const BASE_SIZE: usize = mem::size_of::<Self>();
 
-    fn dst_len(_header: &Self::Header) -> Self::Metadata {}
+    fn dst_len(header: &Self::Header) -> Self::Metadata {
+        // The enum-typed preference field must be part of the tag.
+        assert!(header.size() as usize >= Self::BASE_SIZE);
+    }
 }
 
 impl Tag for RelocatableHeaderTag {
